@@ -158,6 +158,51 @@ func r35Queries(w *World) {
 			sort.Strings(ks)
 			w.ok(key, q.key.Pos(), fmt.Sprintf("custom key built from {%s}; Execute reads only those receiver fields", strings.Join(ks, ", ")))
 		}
+		// non-key fields: the executor keeps the query value of whoever created the task first, so
+		// a field that is not part of the key holds a value that depends on the order in which
+		// queries were first asked — i.e. on the cache history. Reading it anywhere (through the
+		// receiver or through a query value handed back by the executor, e.g. the entries of
+		// ErrCycle.Cycle) makes the output differ between a long-lived and a fresh executor.
+		for i := 0; i < q.st.NumFields(); i++ {
+			if kUsed[i] || kWhole {
+				continue
+			}
+			fld := q.st.Field(i)
+			var reads []string
+			seenPos := map[token.Pos]bool{}
+			for _, b := range allFuncBodies(p) {
+				if b.Lit != nil {
+					continue // visited as part of the enclosing declaration
+				}
+				parents := parentMap(b.Body)
+				ast.Inspect(b.Body, func(x ast.Node) bool {
+					sel, ok := x.(*ast.SelectorExpr)
+					if !ok || info.Uses[sel.Sel] != types.Object(fld) {
+						return true
+					}
+					// a pure write is not a read
+					if as, ok := parents[sel].(*ast.AssignStmt); ok {
+						for _, l := range as.Lhs {
+							if l == ast.Expr(sel) {
+								return true
+							}
+						}
+					}
+					if !seenPos[sel.Pos()] {
+						seenPos[sel.Pos()] = true
+						reads = append(reads, w.pos(sel.Pos()))
+					}
+					return true
+				})
+			}
+			fkey := "non-key-field-read|" + n + "." + fld.Name()
+			if len(reads) == 0 {
+				w.ok(fkey, fld.Pos(), n+"."+fld.Name()+" is not part of the key and is never read")
+			} else {
+				sort.Strings(reads)
+				w.violation(fkey, fld.Pos(), n+"."+fld.Name()+" is not part of the query key but is read at "+strings.Join(reads, ", ")+": the executor keeps the query value of whoever created the task first, so what is read there depends on the order in which queries were first asked (the cache history), not on the files — the same workspace gives different diagnostics on a long-lived and on a fresh executor")
+			}
+		}
 	}
 }
 
